@@ -70,6 +70,17 @@ def build_queries(L, rng, per_fn):
     ua = np.zeros(5 * 4, execlib.REQ); ua['fn'] = 2001; ua['s'] = -1
     ua['i'][:, 0] = np.repeat(np.arange(5), 4); ua['i'][:, 1] = np.tile(np.arange(4), 5)
     reqs.append(ua)
+    # the three catalogue listings (2002-2004) and Crystal_ArrayInit (2005; with INT_MAX the one call that fails for want of memory)
+    ls = np.zeros(3, execlib.REQ); ls['fn'] = [2002, 2003, 2004]; ls['s'] = -1
+    reqs.append(ls)
+    ai = np.zeros(5, execlib.REQ); ai['fn'] = 2005; ai['s'] = -1; ai['i'][:, 0] = [2147483647, -1, 0, 5, 2147483647]
+    reqs.append(ai)
+    # several queries on ONE caller-owned crystal object (2006): built-in copy or caller-edited cell x order of the queries in between
+    names = [c for c in CRYSTALS if c]
+    ob = np.zeros(2 * len(names), execlib.REQ); ob['fn'] = 2006
+    ob['s'] = np.arange(2 * len(names)) % len(names) + len(strs); strs.extend(names)
+    ob['i'][:, 0] = rng.integers(0, 256, len(ob)); ob['i'][:, 1] = np.arange(len(ob)) // len(names)
+    reqs.append(ob)
     return np.concatenate(reqs), strs
 
 
@@ -151,9 +162,11 @@ def main(tier):
         fnname = {f['id']: n for n, f in L.fns.items()}
         fnname.update({v: k for k, v in execlib.SPECIAL_ID.items()})
         fnname[2001] = 'user-crystal-array-episode'
+        fnname.update({2002: 'GetCompoundDataNISTList', 2003: 'GetRadioNuclideDataList', 2004: 'Crystal_GetCrystalsList', 2005: 'Crystal_ArrayInit',
+                       2006: 'queries-on-one-crystal-object'})
         # ---- (1) fresh-process baseline: each query is the first and only call of its own process
         nbase = nq if tier == 'thorough' else min(nq, 2500)
-        base_idx = np.unique(np.concatenate([rng.choice(nq, nbase, replace=False), np.nonzero(Q['fn'] == 2001)[0]]))
+        base_idx = np.unique(np.concatenate([rng.choice(nq, nbase, replace=False), np.nonzero(Q['fn'] >= 2001)[0]]))
 
         def fresh(i):
             r = Q[i:i + 1].copy()
@@ -190,11 +203,15 @@ def main(tier):
             seq = rng.integers(0, nq, hlen)                      # noise: any query
             pos = rng.choice(hlen, hlen // 3, replace=False)
             seq[pos] = rng.choice(bidx, len(pos))               # baseline queries re-appear many times
+            st = np.sort(rng.choice(np.arange(1, hlen), hlen // 10, replace=False))
+            seq[st] = seq[st - 1]                               # stutter: one call in ten is an immediate repetition of its predecessor
             env = {}
             if h % 2:
                 env['XV_XRAYINIT'] = '1'
             if h % 3 == 1:
                 env.update(LOCPATH=locdir, LC_ALL='xx_VERIF')
+            if h % 4 >= 2:
+                env['XV_ERRNO'] = '1'       # errno as some earlier call of the process may have left it (ENOMEM, ERANGE, EDOM, ...) before every query
             resp, msgs, rep = P.run(Q[seq], S, env)
             if resp is None:
                 ck.violation('crash:history', 'history process died', dict(history=h, info=rep, config=config, seed=ck.seed))
@@ -276,6 +293,12 @@ def _check_report(ck, rep, where, config, fresh=False):
         ck.violation('c16:cwd-changed', 'working directory changed', dict(report=rep, config=config, where=where))
     if rep['stdout_bytes'] or rep['stderr_bytes']:
         ck.violation('c16:stream-output:%s' % (where if fresh else 'history'), 'library wrote %d/%d bytes to stdout/stderr' % (rep['stdout_bytes'], rep['stderr_bytes']), dict(report=rep, config=config, where=where))
+    if rep.get('caller_objects_modified'):
+        ck.violation('c16:query-writes-to-caller-object', 'a crystal query modified the crystal object it was given (%d episodes)' % rep['caller_objects_modified'],
+                     dict(report=rep, config=config, where=where))
+    if rep.get('answers_changed_on_same_object'):
+        ck.violation('c16:answer-on-same-object-depends-on-queries-in-between', 'd-spacing / Bragg angle / structure factor of one crystal object changed after other queries on it (%d episodes)' % rep['answers_changed_on_same_object'],
+                     dict(report=rep, config=config, where=where))
     if rep['errors_changed']:
         ck.violation('c16:error-object-changed-later', 'an error object returned earlier was modified by later calls', dict(report=rep, config=config, where=where))
 
